@@ -885,7 +885,25 @@ impl<'a, F: Function + RenderHints> OctreeBuilder<'a, F> {
             if let Some(pos) = force_point {
                 verts.push(CellVertex { pos });
             } else {
-                let (pos, err) = qef.solve();
+                let (mut pos, err) = qef.solve();
+
+                // The QEF minimizer is unbounded: for a feature of about the
+                // cell's size, it can land many cells away, which turns the
+                // local mesh inside out.  A solution just outside the cell
+                // may be a sharp feature of a neighbor and is kept; one that
+                // is more than a cell size away falls back to the mass point
+                // (which is always inside the cell).
+                let far = Axis::array().into_iter().any(|axis| {
+                    let b = cell.bounds[axis];
+                    let w = b.upper() - b.lower();
+                    pos[axis] < b.lower() - w || pos[axis] > b.upper() + w
+                });
+                if far {
+                    let m = qef.mass_point();
+                    pos = CellVertex {
+                        pos: m.xyz() / m.w,
+                    };
+                }
                 verts.push(pos);
 
                 // We overwrite the error here, because it's only used when
